@@ -149,6 +149,17 @@ def predicates(rng, tier, only=None):
     for tag, c in [("canonical", proof), ("sig-as-pop", POP.Sign(sk, pk)), ("neg", enc_g2(O.aff_neg(dec_g2(proof)))),
                    ("flip", flip(proof, rng.randrange(768))), ("inf", enc_g2(None))]:
         ps.append(Pred("popverify-exact", pop_exact_pred, (pk, proof, tag, c)))
+    # boundary corpus: honest signatures with an x-coordinate half in the top sliver [0x1a << 376, p) of the field
+    import json as _json
+    import os as _os
+    cp = _os.path.join(_os.path.dirname(_os.path.abspath(__file__)), "..", "..", "..", "data", "corpus", "C02", "boundary_x.json")
+    if _os.path.exists(cp):
+        corp = _json.load(open(cp))
+        C = suite_cls(corp["suite"])
+        m_ = bytes.fromhex(corp["message_hex"])
+        for c_ in corp["cases"]:
+            sg = C.Sign(c_["sk"], m_)
+            ps.append(Pred("verify-exact", exact_pred, (corp["suite"], pk_of(c_["sk"]), m_, sg, "canonical-boundary-" + c_["half"], sg)))
     ps.append(Pred("cross-tag-history", cross_history_pred, (rng.randrange(1, O.BLS_R), rng.randrange(1, O.BLS_R))))
     ps.append(Pred("aug-own-key-prefix", aug_prefix_pred, (rng.randrange(1, O.BLS_R), rng.choice([b"", b"msg"]))))
     if only:
